@@ -423,7 +423,11 @@ Definition config_malformed (args : list bytes) : Prop :=
      (* an empty section name *)
      (exists k, key = x2e :: k) \/
      (* a line break in the key or in the value *)
-     In c_nl key \/ In c_nl value).
+     In c_nl key \/ In c_nl value \/
+     (* a key part (after the dot) the loader would read back as another key:
+        an '=' or a TAB in it, or white space around it *)
+     (exists sec k, split_all x2e key = [sec; k] /\
+                    (In x3d k \/ In c_tab k \/ trim_space k <> k))).
 
 Theorem config_malformed_refused : forall e g args w,
   config_malformed args -> step (ACmd e (CConfig g args)) w = (w, OErr, []).
@@ -434,12 +438,13 @@ Proof.
     destruct (ctx_of w) as [x|] eqn:Ex; [|apply step_not_loaded; [discriminate | right; exact Ex]].
     rewrite (ConfigCmdFacts.step_config_eq e g args w x Ei Ex). unfold ConfigCmdFacts.config_trace.
     destruct args as [|k [|v [|a3 ar]]]; try reflexivity. contradiction (Har k v). reflexivity.
-  - destruct Hbad as [Hdots|[(k & ->)|[Hk|Hv]]].
+  - destruct Hbad as [Hdots|[(k & ->)|[Hk|[Hv|(sec & k & Hsp & Hamb)]]]].
     + apply ConfigCmdFacts.hostile_config_refused. intros sec k Hsp.
       contradiction (TotalFacts.config_key_dots key Hdots sec k Hsp).
     + apply ConfigCmdFacts.config_empty_section_refused.
     + apply ConfigCmdFacts.config_newline_in_key_refused. exact Hk.
     + apply ConfigCmdFacts.config_newline_in_value_refused. exact Hv.
+    + exact (ConfigCmdFacts.config_ambiguous_key_refused e g key value sec k w Hsp Hamb).
 Qed.
 
 (* and these are ALL the refusals of `config` on a repository that loads *)
@@ -456,18 +461,21 @@ Proof.
     destruct (split_all x2e key) as [|sec [|k [|s3 sr]]] eqn:Esp.
     + left. intro Hc. pose proof (TotalFacts.split_all_length x2e key) as Hl. rewrite Esp in Hl. cbn [length] in Hl. lia.
     + left. intro Hc. pose proof (TotalFacts.split_all_length x2e key) as Hl. rewrite Esp in Hl. cbn [length] in Hl. lia.
-    + destruct (config_args_ok sec key value) eqn:Eok; [discriminate Ho|].
-      unfold config_args_ok in Eok.
+    + destruct (config_args_ok sec k key value) eqn:Eok; [discriminate Ho|].
+      assert (Hcb : forall c s, contains_byte c s = true -> In c s).
+      { intros c s Hc. destruct (in_dec byte_eq_dec c s) as [Hin|Hn]; [exact Hin|].
+        apply (ConfigCmdFacts.cc_contains_byte_iff c s) in Hn. rewrite Hn in Hc. discriminate Hc. }
+      unfold config_args_ok, config_lines_ok in Eok.
       destruct sec as [|s0 sec'].
       * right. left. exists k. rewrite (ConfigCmdFacts.cc_split2_join x2e key [] k Esp). reflexivity.
       * cbn [is_nil negb andb] in Eok.
-        destruct (contains_byte c_nl key) eqn:Ek.
-        -- right. right. left.
-           destruct (in_dec byte_eq_dec c_nl key) as [Hin|Hn]; [exact Hin|].
-           apply (ConfigCmdFacts.cc_contains_byte_iff c_nl key) in Hn. rewrite Hn in Ek. discriminate Ek.
-        -- cbn [negb andb] in Eok. right. right. right.
-           destruct (in_dec byte_eq_dec c_nl value) as [Hin|Hn]; [exact Hin|].
-           apply (ConfigCmdFacts.cc_contains_byte_iff c_nl value) in Hn. rewrite Hn in Eok. discriminate Eok.
+        destruct (contains_byte c_nl key) eqn:Ek; [right; right; left; exact (Hcb _ _ Ek)|].
+        destruct (contains_byte c_nl value) eqn:Ev; [right; right; right; left; exact (Hcb _ _ Ev)|].
+        cbn [negb andb] in Eok. right. right. right. right. exists (s0 :: sec'), k.
+        split; [reflexivity|]. unfold config_key_ok in Eok.
+        destruct (contains_byte x3d k) eqn:E1; [left; exact (Hcb _ _ E1)|].
+        destruct (contains_byte c_tab k) eqn:E2; [right; left; exact (Hcb _ _ E2)|].
+        cbn [negb andb] in Eok. right. right. apply bytes_eqb_neq. exact Eok.
     + left. intro Hc. pose proof (TotalFacts.split_all_length x2e key) as Hl. rewrite Esp in Hl. cbn [length] in Hl. lia.
   - intro Hbad. rewrite (config_malformed_refused e g args w Hbad). reflexivity.
 Qed.
